@@ -169,11 +169,17 @@ SPECS = {
 }
 
 LOG_BEH = ['L1', 'P1', 'L2 P1', 'P1 F', 'P1 F P1', 'E1', 'W1 P2', 'P2 F F', '', 'L450', 'P1 L450 E1', 'Q1', 'P1 Q1', 'U1',
-           'L1 Q2 F Q1']
+           'L1 Q2 F Q1', 'S1', 'V1 P1', 'S2 L1']
 
 
 def beh_logs(job, rnd):
     job['beh'] = {str(t): rnd.choice(LOG_BEH) for t in range(1, job['cfg']['n'] + 1)}
+
+
+def empty_ctx_or_rebind(job, rnd):
+    empty_ctx(job, rnd)
+    if job['cfg']['backend'] != 'serial' and not job['cfg']['cached0'] and rnd.random() < 0.3:
+        job['prior_rebind'] = True
 
 
 def empty_ctx(job, rnd):
@@ -199,7 +205,7 @@ SPECS['C14'] = dict(
                 thorough=dict(serial_cfgs=60, virt_cfgs=120, virt_lines=400, double_cfgs=40, double_lines=200)),
     title='interrupt at every coordinator location of the model and every line boundary of the code')
 SPECS['C16'] = dict(
-    invs=['A_C04_Workers'], props=[], jobfn=empty_ctx, real_jobfn=ctx_pair, real_scale=2,
+    invs=['A_C04_Workers'], props=[], jobfn=empty_ctx_or_rebind, real_jobfn=ctx_pair, real_scale=2,
     fam=dict(quick=dict(n=3, ntypes=3, maxpars=(UNL,), maxws=(1, 2, 16), backends=('fork', 'spawn', 'serial'),
                         cached='none', reqs='roots', sample=600),
              thorough=dict(n=4, ntypes=3, maxpars=(UNL, 2), maxws=(1, 2, 4, 16), backends=('fork', 'spawn', 'serial'),
